@@ -23,7 +23,7 @@ RULE = ("fault injection by real process kill: the component under test (server,
         "the child is ended with os._exit(137) immediately before k (which is also 'immediately after k-1'; unflushed buffers are "
         "lost as with kill -9), for the first and last write of every file with the first half of the data flushed ('torn'), and right after "
         "every open-for-write (file created or truncated, nothing in it yet - data may reach a file without write(): sendfile, copy). "
-        "Recovery = what a user would do: restart the component on the same directory, re-run the interrupted command (a step "
+        "Thorough: three schemes (PiBas with two databases). Recovery = what a user would do: restart the component on the same directory, re-run the interrupted command (a step "
         "refused as 'already ...' counts as done; an interrupted create-service, which never returned a sid, is run again), finish "
         "the workflow. Oracle: after a server crash a new connection gets an ok init echo whose state matches the files on disk; "
         "the workflow reaches the search stage; every search equals DB[w]. Raw-protocol variant: the server dies at every point of a raw "
@@ -529,10 +529,9 @@ _DRY_CACHE = {}
 
 def shards(tier):
     schemes = ["CJJ14.PiBas"] if tier == "quick" else ["CJJ14.PiBas", "CJJ14.Pi2Lev", "DP17.Pi"]
-    dbs = [0] if tier == "quick" else [0, 1]
     out = []
     for s in schemes:
-        for dbi in dbs:
+        for dbi in ([0] if (tier == "quick" or s != "CJJ14.PiBas") else [0, 1]):
             base = scenario_base(s, dbi)
             dry = dry_run(base)
             if dbi == 0:
@@ -570,10 +569,10 @@ def shards(tier):
 
 
 def OPTIMIZED_SHARDS(tier):
-    """a sample of the crash scenarios (every 9th in quick, every 3rd in thorough) is repeated with all processes started with -O"""
+    """a sample of the crash scenarios (every 9th in quick, every 5th in thorough) is repeated with all processes started with -O"""
     flat = [sc for sh in shards(tier) for sc in sh["scenarios"]]
     flat.sort(key=lambda sc: json.dumps(sc, sort_keys=True, default=repr))
-    pick = flat[::9 if tier == "quick" else 3]
+    pick = flat[::9 if tier == "quick" else 5]
     n = 8
     groups = [pick[i::n] for i in range(n)]
     return [{"kind": "crash", "scenarios": g, "_label": {"kind": "crash", "group": "O%d" % i, "scenarios": len(g)}} for i, g in enumerate(groups) if g]
